@@ -72,11 +72,13 @@ def unpivot(unpivot_fields, extra_keys, extra_value, regex=True, resources=None)
                     config['unpivot_fields_without_regex'].append(field_to_pivot)
 
             config['fields_to_keep'] = [f['name'] for f in fields]
-            # a primary key that lost one of its fields is no key any more
+            # a primary key that lost one of its fields, or whose rows are now emitted
+            # once per unpivoted field, is no key any more
             primary_key = schema.get('primaryKey') or []
             if isinstance(primary_key, str):
                 primary_key = [primary_key]
-            if any(k not in config['fields_to_keep'] for k in primary_key):
+            if primary_key and (any(k not in config['fields_to_keep'] for k in primary_key) or
+                                len(config['unpivot_fields_without_regex']) != 1):
                 del schema['primaryKey']
             # one descriptor per resource: a shared dict would make a later change to the field
             # in one resource show up in all of them
